@@ -394,10 +394,12 @@ PROPS["C20"] = dict(
          "headers; bodies of 0-300 bytes in the grammar the parser accepts, i.e. without ': '; every message below one MSS), then 1-8 text messages over "
          "the bundled WebSocket client (unmasked) and, in half of the runs, 1-8 more from a harness-side RFC 6455 client with masked frames and random, "
          "all-zero and all-ones keys; message lengths 0, 1, 124-128, 1000, 65534-65537, uniform < 3000 and up to 300 KB; the server answers each message "
-         "with its reversal, so both directions carry distinguishable bytes; closed loop, client first. non-trivial = at least one request or message "
+         "with its reversal, so both directions carry distinguishable bytes; in half of the runs messages also come in bursts: the server follows "
+         "its reply with up to two further, mostly shorter, messages, and the bundled client sends 2-4 small messages before reading any reply; the "
+         "harness-side client sends 30% of its frames unmasked between masked ones; client first. non-trivial = at least one request or message "
          "completed; distinct = distinct hash of the session's semantic events (methods, paths, message lengths)",
     expected_probes=["http_requests", "unregistered_path_requests", "ws_messages_bundled_client", "ws_messages_masked_raw_client", "raw_upgrades",
-                     "ws_len_7bit", "ws_len_16bit", "ws_len_64bit"],
+                     "ws_len_7bit", "ws_len_16bit", "ws_len_64bit", "ws_client_bursts", "ws_server_burst_messages", "ws_unmasked_raw_frames"],
     real=NET_REAL + ["protocol/application/http", "protocol/application/websocket", "protocol/transport/tcp/client", "protocol/link/loopback", "internal/socket"],
     stubs=NET_STUBS + ["stack/stackinit: no TAP device and no host-interface probing under tag verif; the harness builds stack.Pstack itself"],
     assumptions=NET_ASSUME + [
